@@ -24,6 +24,20 @@ theorem all13_no_throw : ∀ ob ∈ all13, ¬ Throws exNet ob := by
   · exact hd0 h
   · exact hs0 h
 
+theorem exNet_hdist2 (ob : NObs ℝ) (h1 : ob.pfrom = 7) (h2 : ob.pfs = 8) : hdist2 (exNet.view ob) = 5 := by
+  simp [hdist2, dX2, dY2, Net.view, exNet, h1, h2]
+  rw [show (3:ℝ) * 3 + 4 * 4 = 5 ^ 2 by norm_num]; exact Real.sqrt_sq (by norm_num)
+
+/-- every row of `all13` is outside the cut of `bearing_distance` -/
+theorem all13_regular : ∀ ob ∈ all13, Regular ob.kind (exNet.view ob) := by
+  intro ob hob
+  obtain ⟨k, -, rfl⟩ := List.mem_map.mp hob
+  have hd : ¬ hdist (exNet.view ⟨k, 0, 7, 8, 8, 1⟩) < CUT := by
+    rw [exNet_hdist _ rfl rfl]; unfold CUT; norm_num
+  have hd2 : ¬ hdist2 (exNet.view ⟨k, 0, 7, 8, 8, 1⟩) < CUT := by
+    rw [exNet_hdist2 _ rfl rfl]; unfold CUT; norm_num
+  cases k <;> simp only [Regular] <;> first | exact hd | exact ⟨hd, hd2⟩ | trivial
+
 /-- a distance, a slope distance from a point to itself (throws), a zenith angle from a point to itself -/
 noncomputable def obD : NObs ℝ := ⟨.distance, 0, 7, 8, 0, 5⟩
 noncomputable def obS : NObs ℝ := ⟨.s_distance, 0, 7, 7, 0, 1⟩
